@@ -1411,7 +1411,7 @@ func (g *Gen) atPoint(kind, callee string, ins ssa.Instruction, pos token.Pos) {
 		if as.PointKind+":"+as.Callee != key || (as.Ordinal != ord && as.Ordinal != -1) {
 			continue
 		}
-		as.Used = true
+		g.markUsed(as)
 		env := g.pointEnv(ins)
 		switch as.Kind {
 		case "assert":
@@ -1600,7 +1600,7 @@ func (g *Gen) atLoopBody(li *loopInfo, at ssa.Instruction) {
 		if as.PointKind != "loopbody" || as.Ordinal != li.ordinal {
 			continue
 		}
-		as.Used = true
+		g.markUsed(as)
 		phis := map[string]*Val{}
 		for _, ins := range li.header.Instrs {
 			phi, ok := ins.(*ssa.Phi)
@@ -1821,7 +1821,7 @@ func (g *Gen) passDirective(fact string) *AtStmt {
 	ord := g.pointCount[g.curCall]
 	for _, as := range g.ct.Ats {
 		if as.Kind == "pass" && as.PointKind == "call" && as.Callee == callee.Name() && (as.Ordinal == ord || as.Ordinal == -1) && as.Name == fact {
-			as.Used = true
+			g.markUsed(as)
 			return as
 		}
 	}
